@@ -6,8 +6,16 @@ PROP = 'C09'
 HEADER = ('From Coq Require Import List NArith Bool.\nFrom FB Require Import Model.Conc.\n'
           'Import ListNotations.\nLocal Open Scope N_scope.\n')
 
+def expand(p):
+    """a readdirplus entry that is not delivered is a lookup followed at once by forget(1) of the same number (not atomic)"""
+    out = []
+    for o in p:
+        out += ['L', 'F1'] if o == 'R-' else (['L'] if o == 'R+' else [o])
+    return out
+
 def seq_outcomes(r0, progs):
     """final counts of all sequential orders of the operations (per-thread order kept)"""
+    progs = [expand(p) for p in progs]
     outs = set()
     def go(pos, refs):
         done = True
@@ -22,12 +30,18 @@ def seq_outcomes(r0, progs):
     return outs
 
 def coq_prog(p):
-    return '[' + '; '.join('CLookup' if o == 'L' else '(CForget %s)' % o[1:] for o in p) + ']'
+    def one(o):
+        if o == 'L': return 'CLookup'
+        if o == 'R+': return '(CRdp true)'
+        if o == 'R-': return '(CRdp false)'
+        return '(CForget %s)' % o[1:]
+    return '[' + '; '.join(one(o) for o in p) + ']'
 
 def coq_nats(l): return '[' + '; '.join('%d%%nat' % x for x in l) + ']'
 def coq_ns(l): return '[' + '; '.join('%d' % x for x in l) + ']'
 
-SMALL = [(['L'], ['F1']), (['F1'], ['L']), (['L', 'F1'], ['L']), (['F1', 'L'], ['L']), (['L'], ['L'])]
+SMALL = [(['R-'], ['F1']), (['R-'], ['L']), (['R+'], ['F1']), (['R-'], ['R-']), (['R-'], ['R+']),
+         (['L'], ['F1']), (['F1'], ['L']), (['L', 'F1'], ['L']), (['F1', 'L'], ['L']), (['L'], ['L'])]
 
 def programs(tier, rnd):
     """(initial count, thread programs, max schedules of the depth-first enumeration)"""
@@ -35,11 +49,11 @@ def programs(tier, rnd):
     # the smallest racing programs are enumerated exhaustively, from a positive count first: they contain the
     # windows lookup-CAS vs forget (load .. compare-exchange) and probe vs removal
     for r0 in (1, 2, 0):
-        for a, b in SMALL: P.append((r0, [a, b], (400 if len(a) + len(b) == 2 else (110 if r0 else 40)) if tier == 'quick' else 100000))
-    two = [(['L'], ['F1', 'L']), (['L', 'L'], ['F1']), (['L', 'F1', 'L'], ['F1']), (['L', 'F2'], ['L', 'F1']), (['F1', 'L'], ['F1', 'L'])]
+        for a, b in SMALL: P.append((r0, [a, b], (400 if len(a) + len(b) == 2 and 'R-' not in a + b else (110 if r0 else 40)) if tier == 'quick' else 100000))
+    two = [(['R-', 'L'], ['F1']), (['R+', 'F1'], ['R-']), (['L'], ['F1', 'L']), (['L', 'L'], ['F1']), (['L', 'F1', 'L'], ['F1']), (['L', 'F2'], ['L', 'F1']), (['F1', 'L'], ['F1', 'L'])]
     for r0 in (0, 1, 2):
         for a, b in two: P.append((r0, [a, b], 20 if tier == 'quick' else 100000))
-    three = [(['L'], ['L'], ['F1']), (['L'], ['F1'], ['F1']), (['L'], ['L'], ['L'])]
+    three = [(['R-'], ['L'], ['F1']), (['L'], ['L'], ['F1']), (['L'], ['F1'], ['F1']), (['L'], ['L'], ['L'])]
     for r0 in (0, 1):
         for pr in three: P.append((r0, list(pr), 20 if tier == 'quick' else 100000))
     if tier != 'quick':
@@ -85,18 +99,18 @@ def judge(r):
     pr = r['progs']; r0 = r['r0']; final = max(r['rc'], 0)
     for t, res in enumerate(r['results']):
         for o, v in zip(pr[t], res):
-            if o == 'L' and v != r['ino']:
-                return 'lookup in thread %d returned %d, the file has number %d' % (t, v, r['ino'])
+            if o in ('L', 'R+', 'R-') and v != r['ino']:
+                return '%s in thread %d returned %d, the file has number %d' % ('lookup' if o == 'L' else 'readdirplus entry', t, v, r['ino'])
     if [len(x) for x in r['results']] != [len(p) for p in pr]: return 'not every operation completed'
     outs = seq_outcomes(r0, pr)
     if final not in outs:
         return 'final lookup count %d is not the result of any sequential order of the operations (possible: %s): a reference was %s' % (
-            final, sorted(outs), 'lost' if final < min(outs) else 'duplicated')
+            final, sorted(outs), 'lost' if final < min(outs) else 'leaked or counted twice')
     if (r['getattr'] == 9) != (final == 0): return 'count %d but getattr errno %d' % (final, r['getattr'])
-    holds = r0 + sum(1 for p in pr for o in p if o == 'L') - sum(int(o[1:]) for p in pr for o in p if o != 'L')
+    holds = r0 + sum(1 for p in pr for o in p if o in ('L', 'R+')) - sum(int(o[1:]) for p in pr for o in p if o[0] == 'F')
     if holds > 0 and r['getattr'] != 0:
         return 'the client still holds %d reference(s) to number %d but getattr answers errno %d' % (holds, r['ino'], r['getattr'])
-    if r['ninodes'] != 1 + (1 if final > 0 else 0): return '%d inode objects in the table with count %d' % (r['ninodes'], final)
+    if r['ninodes'] != 2 + (1 if final > 0 else 0): return '%d inode objects in the table (root, the listed directory, the file) with count %d' % (r['ninodes'], final)
     if r.get('post', 0) > 0 and (r['rc2'] != 1 or r['getattr2'] != 0):
         return 'after the run the client forgot %d of its %d references: count %d, getattr errno %d (expected count 1, usable)' % (
             r['post'], r['post'] + 1, r['rc2'], r['getattr2'])
@@ -111,7 +125,7 @@ def run_check(tier, seed):
         'the scheduler switches threads at the 6 hook points; while a forget is paused between its load and its compare-exchange (it holds the write lock) only lock-free continuations of lookups are scheduled, so the forget CAS-retry path is driven too',
         'harness/src/bin/ptconc.rs and the verif_hooks module',
     ]
-    ev.assumptions = ['one file, looked up through two hard-link names, forgets by its inode number', 'fewer than 2^64-1 lookups applied (no refcount saturation)']
+    ev.assumptions = ['one file, looked up through two hard-link names and listed (readdirplus) through a third one in a subdirectory, forgets by its inode number', 'fewer than 2^64-1 lookups applied (no refcount saturation)']
     findings, broken = [], []
     audit = std_audit(ev, PROP, broken)
     ok, out, bindir = cargo_build(['ptconc'])
@@ -166,7 +180,7 @@ def run_check(tier, seed):
                 # last resort: the racing steps may not be separated by a yield point (the scheduler cannot put a
                 # thread between them): run the small programs free-running many times and look at the final counts
                 iters = 100000 if tier == 'quick' else 1000000
-                st = [(1, [['F1'], ['L']]), (2, [['L', 'F1'], ['L']]), (1, [['L'], ['L'], ['F1']]), (2, [['F1', 'L'], ['L', 'F1']])]
+                st = [(1, [['R-'], ['L']]), (1, [['F1'], ['L']]), (2, [['L', 'F1'], ['L']]), (1, [['L'], ['L'], ['F1']]), (2, [['F1', 'L'], ['L', 'F1']])]
                 txt = ''.join('r0 %d\n' % r0 + ''.join('thread %s\n' % ' '.join(p) for p in pr) + 'stress %d\n' % iters for r0, pr in st)
                 sp3 = os.path.join(d, 'c09_stress.txt'); open(sp3, 'w').write(txt)
                 rc3, out3 = run([os.path.join(bindir, 'ptconc'), sp3, d], timeout=1800)
@@ -184,7 +198,7 @@ def run_check(tier, seed):
     ev.cov['evaluations'] = len(runs)
     ev.cov['distinct_nontrivial'] = len(shapes)
     ev.cov['programs'] = len(progs); ev.cov['programs_fully_enumerated'] = complete; ev.cov['programs_truncated'] = truncated
-    ev.cov['rule'] = ('depth-first enumeration of all schedules (at yield-point granularity) of %d small 2- and 3-thread programs over initial counts 0..2; '
+    ev.cov['rule'] = ('depth-first enumeration of schedules (at yield-point granularity) of %d small 2- and 3-thread programs of lookup / forget / readdirplus-entry (delivered or given back) operations over initial counts 0..2; '
                       'evaluations = schedules executed on real threads and replayed in the Coq model; distinct_nontrivial = distinct (initial count, program, yield trace)' % len(progs))
     ev.cov['samples'] = samples
     return finish(ev, PROP, findings, broken)
